@@ -589,7 +589,8 @@ def spell(rng, fn, c):
 
 
 BAD_ARGS = [[1, 2], {'$d': [['a', 1]]}, {'$s': [1, 2]}, {'$o': 'badrepr'}, {'$o': 'unpicklable'},
-            [[1], {'$o': 'unpicklable'}], {'$deep': 3000}, {'$d': [[1, 2.5]]}, [{'$d': [[{'$t': [0, 1]}, 4.0]]}]]
+            [[1], {'$o': 'unpicklable'}], {'$deep': 3000}, {'$d': [[1, 2.5]]}, [{'$d': [[{'$t': [0, 1]}, 4.0]]}],
+            {'$o': 'keyerr'}, [{'$o': 'keyerr'}]]
 
 OPMIX = {
     'C01': [(60, 'call'), (5, 'mcall'), (4, 'chdir'), (2, 'sibling_call'), (5, 'peer_call'), (4, 'load'), (3, 'load_k'), (4, 'dump'), (2, 'dump_k'), (3, 'clear'),
